@@ -110,6 +110,60 @@ fn check_ast(ast: &Ast, st: &mut Stats) {
             ),
         ),
     };
+    // 0. layout variants (small ASTs): the same tokens separated by each white-space character there is, by
+    // an inline comment and by a line comment still list the same identifiers with the same classes — a name
+    // that picks up a neighbouring character, or two names that merge, is a wrong list whatever the tree
+    // (admissible only where the reference lexer reads the same tokens as from the spaced rendering)
+    if ast.size() <= 2 && !occ.is_empty() {
+        let toks = Renderer::render(ast, Parens::Minimal).out;
+        let mut seps: Vec<String> = (0u32..=0x3000).filter_map(char::from_u32).filter(|c| c.is_whitespace()).map(|c| c.to_string()).collect();
+        seps.push("/**/".into());
+        seps.push(" //c\n".into());
+        for sep in &seps {
+            let s2 = toks.iter().map(|t| t.text()).collect::<Vec<_>>().join(sep);
+            match (crate::refmodel::lexer::lex(&s2), crate::refmodel::lexer::lex(&src)) {
+                (Ok(a), Ok(b)) if crate::refmodel::lexer::same_tokens(&a, &b) => {},
+                _ => continue,
+            }
+            let t = match guarded(|| build_operator_tree::<evalexpr::DefaultNumericTypes>(&s2)) {
+                Ok(Ok(t)) => t,
+                _ => continue,
+            };
+            st.evaluations += 1;
+            st.count("layout-variants");
+            let got: Result<Vec<(&str, Vec<String>)>, PanicInfo> = guarded(|| {
+                vec![
+                    ("iter_identifiers", t.iter_identifiers().map(String::from).collect()),
+                    ("iter_variable_identifiers", t.iter_variable_identifiers().map(String::from).collect()),
+                    ("iter_read_variable_identifiers", t.iter_read_variable_identifiers().map(String::from).collect()),
+                    ("iter_write_variable_identifiers", t.iter_write_variable_identifiers().map(String::from).collect()),
+                    ("iter_function_identifiers", t.iter_function_identifiers().map(String::from).collect()),
+                ]
+            });
+            let keeps: [&[Cls]; 5] = [&[Cls::Read, Cls::Write, Cls::Func], &[Cls::Read, Cls::Write], &[Cls::Read], &[Cls::Write], &[Cls::Func]];
+            let bad = match got {
+                Ok(g) => g.iter().zip(keeps.iter()).find(|((_, l), k)| *l != names(&occ, k)).map(|((n, l), k)| (format!("{} yields {:?}", n, names(&occ, k)), format!("{:?}", l))),
+                Err(p) => Some(("the identifier lists".to_string(), format!("panic at {}: {}", p.location, p.message))),
+            };
+            if let Some((expected, actual)) = bad {
+                st.violation(Violation {
+                    property: ID,
+                    kind: "iterator-mismatch/layout-variant".into(),
+                    input: json!({"source": s2, "spaced_source": src, "ast": want.show()}),
+                    expected,
+                    actual,
+                    test: test_wrap(
+                        "c14_replay",
+                        &format!(
+                            "    let tree = build_operator_tree::<DefaultNumericTypes>({:?}).unwrap();\n    // identifier occurrences in source order with their class: {:?}\n    panic!(\"{{:?}} / read {{:?}} / write {{:?}} / fn {{:?}}\", tree.iter_identifiers().collect::<Vec<_>>(), tree.iter_read_variable_identifiers().collect::<Vec<_>>(), tree.iter_write_variable_identifiers().collect::<Vec<_>>(), tree.iter_function_identifiers().collect::<Vec<_>>());\n",
+                            s2, occ
+                        ),
+                    ),
+                });
+                return;
+            }
+        }
+    }
     let tree = match guarded(|| build_operator_tree::<evalexpr::DefaultNumericTypes>(&src)) {
         Ok(Ok(t)) => t,
         // tree shape is C02's/C05's business; without the tree there is nothing to iterate
@@ -604,7 +658,7 @@ pub fn run(cfg: &Cfg) -> Report {
     Report {
         property: ID,
         level: "exploration",
-        rule: format!("every AST with <= {k} operator nodes over the full operator alphabet (identifiers in every leaf, assignment-target and function position, named in source order) plus {nseq} sequence-shaped ASTs (`,`/`;` skeletons with <= {seq_n} separators over 13 element shapes incl. absent elements, `()`, nested sequences, and every skeleton of up to three more separators over plain variables, assignments and calls); per AST: 5 immutable + 5 mutable iterators against the occurrence list of the AST, every consumption style (for_each/fold, last, count, nth after 0..3 calls of next()) against next(), unknown-identifier errors against the lists (also after renaming all functions, or all variables, to names with namespaces, dots, underscores, upper-case and non-ASCII letters, digits and underscores only (`_0`, `0_`), a trailing `e`, `#`, `$`, with builtins enabled and disabled), and every swap of two variable names / two function names / a name with a fresh name / a name with a name in use in the other namespace applied through the mutable iterators and to the context. Plus scaling families (sums, products, tuples, call arguments, call chains, assignment chains, prefix chains, statement sequences with n identifiers for every n in 1..20 and up to 129 / 1..40 and up to 400). Non-trivial = at least two identifier occurrences; distinct by normalised tree"),
+        rule: format!("every AST with <= {k} operator nodes over the full operator alphabet (identifiers in every leaf, assignment-target and function position, named in source order; ASTs with <= 2 operators also with their tokens separated by each of the 25 white-space characters, by an inline comment and by a line comment: same identifier lists) plus {nseq} sequence-shaped ASTs (`,`/`;` skeletons with <= {seq_n} separators over 13 element shapes incl. absent elements, `()`, nested sequences, and every skeleton of up to three more separators over plain variables, assignments and calls); per AST: 5 immutable + 5 mutable iterators against the occurrence list of the AST, every consumption style (for_each/fold, last, count, nth after 0..3 calls of next()) against next(), unknown-identifier errors against the lists (also after renaming all functions, or all variables, to names with namespaces, dots, underscores, upper-case and non-ASCII letters, digits and underscores only (`_0`, `0_`), a trailing `e`, `#`, `$`, with builtins enabled and disabled), and every swap of two variable names / two function names / a name with a fresh name / a name with a name in use in the other namespace applied through the mutable iterators and to the context. Plus scaling families (sums, products, tuples, call arguments, call chains, assignment chains, prefix chains, statement sequences with n identifiers for every n in 1..20 and up to 129 / 1..40 and up to 400). Non-trivial = at least two identifier occurrences; distinct by normalised tree"),
         nontrivial_set: "nontrivial",
         exhaustive: true,
         bound_completed: format!("AST size {k}; sequences with {seq_n} separators"),
@@ -619,7 +673,7 @@ pub fn run(cfg: &Cfg) -> Report {
 }
 
 pub fn replay(case: &J) -> i32 {
-    let src = case["input"]["source"].as_str().unwrap_or_else(|| machinery_error("C14 replay: no source"));
+    let src = case["input"]["spaced_source"].as_str().or(case["input"]["source"].as_str()).unwrap_or_else(|| machinery_error("C14 replay: no source"));
     // rebuild the AST by searching the enumeration for the same rendering (cheap at these sizes)
     let alpha = Alphabet::full();
     let counts = shape_counts(&alpha, 4);
